@@ -645,7 +645,10 @@ def cases(rng, tier):
                "ops": [_rand_op(rng) for _ in range(rng.randint(2, 5))]}
     allc = list(_conc_table())
     if tier == "quick":
-        allc = rng.sample(allc, 700)
+        # every non-overlapping schedule of the table, and a sample of the overlapping ones
+        serial = [c for c in allc if c["sched"][:6] in ([0, 0, 0, 1, 1, 1], [1, 1, 1, 0, 0, 0])]
+        other = [c for c in allc if c["sched"][:6] not in ([0, 0, 0, 1, 1, 1], [1, 1, 1, 0, 0, 0])]
+        allc = serial + rng.sample(other, 500)
     yield from allc
     for _ in range(100 if tier == "quick" else 1500):
         lo, pa = _rand_store(rng)
